@@ -155,7 +155,7 @@ theorem mount_mapInv {s : State} (hinv : Inv s) (h : MapInv s) (b : Bk) (path : 
     exact insertMountLocked_mapInv hinv2 (mapInv_setMap hinv h next idx map hvac) hvac hins
 
 theorem umount_mapInv {s : State} (hinv : Inv s) (h : MapInv s) (path : Name) : MapInv (s.umount path).1 := by
-  rcases umount_cases s path with h1 | ⟨inode, m0, pseudo, hm0, h1⟩
+  rcases umount_cases s path with h1 | ⟨inode, m0, pseudo, hm0, _, h1⟩
   · rw [h1]; exact h
   · rw [h1]
     intro p m hm
